@@ -3,6 +3,7 @@ package props
 import (
 	"errors"
 	"fmt"
+	"runtime"
 
 	"github.com/tigerwill90/fox"
 
@@ -102,6 +103,8 @@ func runTxn(w *world.World, pool []*model.Pattern, t *TxnProg, each func(i int, 
 					return errInjected
 				case "panic":
 					panic(injectedPanic{i})
+				case "goexit":
+					runtime.Goexit() // the calling goroutine ends inside the transaction (only used on simulator tasks)
 				case "abort":
 					return errInjected // unmanaged: leave; managed: abort via error (explicit abort below for unmanaged)
 				}
@@ -113,6 +116,8 @@ func runTxn(w *world.World, pool []*model.Pattern, t *TxnProg, each func(i int, 
 			switch t.End {
 			case "panic":
 				panic(injectedPanic{len(t.Ops)})
+			case "goexit":
+				runtime.Goexit()
 			default:
 				return errInjected
 			}
